@@ -10,11 +10,9 @@ The monitor states the property at full strength.  Where the code is known to vi
 failing clause carries the finding's class, decided by an exact accounting of the defect
 (never by "some failure happened"):
   F-svc-1  charge ≠ Σ fees because a promotion discount applied: the gap must be exactly
-           Σ (undiscounted price − recorded fee) of the requests created in that block;
-  F-svc-2  owner tally keeps a denom that a per-provider withdrawal brought to zero;
-  F-svc-4  a failed multi-denom deduction in `EndBlocker` kept the partial debit: the gap must
-           be exactly what the bank's coin-by-coin debit removes before it hits the
-           unaffordable denom.
+           Σ (undiscounted price − recorded fee) of the requests created in that block.
+The former classes F-svc-2 (stale owner tally) and F-svc-4 (partial debit of a failed deduction) are
+repaired in /repo; such failures are reported unclassified again.
 -/
 import Irismod.Model.Service
 
@@ -74,10 +72,9 @@ structure Fail where
   cls    : String := ""
   deriving Repr, Inhabited
 
-/-- what the monitor remembers along one history: funds the known defects left behind -/
+/-- what the monitor remembers along one history: funds the known defect left behind -/
 structure Mon where
   stranded : AMap Denom Nat := []            -- F-svc-1: escrow surplus without liability
-  stale    : AMap (Addr × Denom) Nat := []   -- F-svc-2: owner-tally entries without provider-side counterpart
   deriving Repr, Inhabited
 
 def users : List Addr := ["A0", "A1", "A2", "A3", "A4", "A5", "A6", "A7", "A8", "A9"]
@@ -119,8 +116,8 @@ def depositEscrowOk (ds : List Denom) (s : State) : Bool :=
 def requestEscrowOk (ds : List Denom) (m : Mon) (s : State) : Bool :=
   ds.all fun d => Bank.balOf s.bank reqAcc d == activeFee s d + earnedSum s d + AMap.getD m.stranded d 0
 
-def tallyOk (ds : List Denom) (m : Mon) (s : State) : Bool :=
-  (owners s).all fun o => ds.all fun d => ownerEarned s o d == providersEarned s o d + AMap.getD m.stale (o, d) 0
+def tallyOk (ds : List Denom) (s : State) : Bool :=
+  (owners s).all fun o => ds.all fun d => ownerEarned s o d == providersEarned s o d
 
 /-- requests created / expired by one `EndBlocker` -/
 def createdIn (pre post : State) : List ReqId := post.active.filter (fun r => !(pre.active.contains r))
@@ -134,27 +131,6 @@ def priceIn (pre post : State) (rid : ReqId) (d : Denom) : Nat :=
     | none => 0
     | some b => if b.pricing.denom = d then b.pricing.amount else 0
 
-/-- F-svc-4 oracle: what the coin-by-coin debit of a failed deduction removes, per (consumer, denom),
-computed by the model's `EndBlocker` phases on the implementation's pre-state -/
-def debitLosses (ds : List Denom) (s : State) : List (Addr × Denom × Nat) :=
-  let s1 := (dueIds s.expQ s.height).foldl expireCtx s
-  let r := (dueIds s1.newQ s1.height).foldl (fun (acc : State × List (Addr × Denom × Nat)) id =>
-    let st := acc.1
-    let rc := getCtx st id
-    let st' := newBatch st id
-    let lost :=
-      if rc.state = .running ∧ (getCtx st' id).state = .paused then
-        ds.filterMap fun d =>
-          let a := Bank.balOf st.bank rc.consumer d
-          let b := Bank.balOf st'.bank rc.consumer d
-          if b < a then some (rc.consumer, d, a - b) else none
-      else []
-    (st', acc.2 ++ lost)) (s1, [])
-  r.2
-
-def lossOf (l : List (Addr × Denom × Nat)) (c : Addr) (d : Denom) : Nat :=
-  sumList ((l.filter (fun e => e.1 = c && e.2.1 = d)).map (·.2.2))
-
 /-- `k` successive slashes of a deposit -/
 def slashTimes (fr : Dec) : Nat → Nat → Nat
   | 0, dep => dep
@@ -164,7 +140,6 @@ def slashTimes (fr : Dec) : Nat → Nat → Nat
 def checkNext (ds : List Denom) (m : Mon) (pre post : State) : Mon × List Fail :=
   let created := createdIn pre post
   let expired := expiredIn pre post
-  let losses := debitLosses ds pre
   -- (charge) consumer balance change = − Σ fees of the requests created for them + Σ refunds of their expired requests
   let chargeFails := users.flatMap fun c => ds.flatMap fun d =>
     let feeSum := sumList ((created.filter (fun r => (getCtx post r.ctx).consumer = c)).map (fun r => reqFee post r d))
@@ -172,11 +147,9 @@ def checkNext (ds : List Denom) (m : Mon) (pre post : State) : Mon × List Fail 
     let refund := sumList ((expired.filter (fun r => (getCtx pre r.ctx).consumer = c)).map (fun r => reqFee pre r d))
     let actual := bal post c d - bal pre c d
     let expected : Int := (refund : Int) - (feeSum : Int)
-    let f4 := lossOf losses c d
     if actual = expected then []
-    else if actual = (refund : Int) - (priceSum : Int) - (f4 : Int) ∧ feeSum ≤ priceSum then
-      (if feeSum < priceSum then [{ clause := "charge-eq-fees", cls := "F-svc-1" : Fail }] else []) ++
-      (if 0 < f4 then [{ clause := "charge-eq-fees", cls := "F-svc-4" : Fail }] else [])
+    else if actual = (refund : Int) - (priceSum : Int) ∧ feeSum < priceSum then
+      [{ clause := "charge-eq-fees", cls := "F-svc-1" : Fail }]
     else [{ clause := "charge-eq-fees" }]
   -- (F-svc-1 bookkeeping) what this block really left in the escrow beyond the fees of the requests it created
   -- (and minus the refunds of those it expired); it is attributed to F-svc-1 only if it is exactly
@@ -241,23 +214,9 @@ def checkWithdraw (ds : List Denom) (m : Mon) (pre post : State) (owner : Addr) 
     | none => ds.all fun d => ownerEarned post owner d == 0 &&
         (pre.owners.all fun e => e.2 != owner || earnedOf post e.1 d == 0)
   let base : List Fail := if moneyOk ∧ cleared ∧ depositsSameExcept pre post [] then [] else [{ clause := "withdraw-exact" }]
-  match provider with
-  | none => ({ m with stale := m.stale.filter (fun e => e.1.1 ≠ owner) }, base)
-  | some p =>
-    -- the owner-side tally must drop by what the provider withdrew; F-svc-2 leaves a denom that reached zero in place
-    let res := ds.foldl (fun (acc : Mon × List Fail) d =>
-      let pe := earnedOf pre p d
-      let oe := ownerEarned pre owner d
-      let oe' := ownerEarned post owner d
-      if oe' + pe = oe then acc
-      else if pe ≠ 0 ∧ oe' = oe ∧ pe + AMap.getD m.stale (owner, d) 0 = oe ∧
-              !(coinsEq (entriesOf pre.earned p) (entriesOf pre.oearned owner)) then
-        ({ acc.1 with stale := AMap.set acc.1.stale (owner, d) (AMap.getD acc.1.stale (owner, d) 0 + pe) },
-         acc.2 ++ [{ clause := "owner-tally-eq-provider-tallies", cls := "F-svc-2" : Fail }])
-      else (acc.1, acc.2 ++ [{ clause := "owner-tally-eq-provider-tallies" : Fail }])) (m, base)
-    -- a withdrawal that empties the owner-side entries also drops stale ones
-    let m' := if (ds.all fun d => ownerEarned post owner d == 0) then { res.1 with stale := res.1.stale.filter (fun e => e.1.1 ≠ owner) } else res.1
-    (m', res.2)
+  -- the owner-side tally drops by exactly what was paid out
+  let tally : Bool := ds.all fun d => ownerEarned post owner d + paid d == ownerEarned pre owner d
+  (m, base ++ (if tally then [] else [{ clause := "owner-tally-eq-provider-tallies" : Fail }]))
 
 /-- accepted deposit movements -/
 def checkDeposit (ds : List Denom) (pre post : State) (owner provider : Addr) (svc : String) (amt : Nat) (isBind : Bool) : List Fail :=
@@ -300,7 +259,7 @@ def check (ds : List Denom) (m : Mon) (pre : State) (op : Op) (accepted : Bool) 
   let stateFails :=
     (if depositEscrowOk ds post then [] else [{ clause := "deposit-escrow-eq-deposits" : Fail }]) ++
     (if requestEscrowOk ds m1 post then [] else [{ clause := "request-escrow-eq-liabilities" : Fail }]) ++
-    (if tallyOk ds m1 post then [] else [{ clause := "owner-tally-eq-provider-tallies" : Fail }])
+    (if tallyOk ds post then [] else [{ clause := "owner-tally-eq-provider-tallies" : Fail }])
   (m1, stepFails ++ stateFails)
 
 end Irismod.Spec.C07
